@@ -74,18 +74,25 @@ func (c *ctl) choices(j Job) []Ev {
 			out = append(out, Ev{K: "pass", I: i})
 		}
 	}
-	for i := 0; i < next; i++ {
-		if d, ok := c.dials[i]; ok && d.inDial {
-			out = append(out, Ev{K: "dial", I: i, OK: true}, Ev{K: "dial", I: i, OK: false})
-		}
+	lockOK := c.parked < 0 || !c.used
+	if !lockOK {
+		out = out[:0]
 	}
 	for i := 0; i < next; i++ {
+		if d, ok := c.dials[i]; ok && d.inDial {
+			out = append(out, Ev{K: "dial", I: i, OK: true}, Ev{K: "dial", I: i, OK: true, Slow: true}, Ev{K: "dial", I: i, OK: false})
+		}
+	}
+	if c.parked >= 0 {
+		out = append(out, Ev{K: "closego", I: c.parked})
+	}
+	for i := 0; i < next && lockOK; i++ {
 		if _, ok := c.pFailed[i]; ok {
 			out = append(out, Ev{K: "failgo", I: i})
 		}
 	}
-	for i := 0; i < next; i++ {
-		if t := c.threads[i]; t != nil && t.returned && t.releases < 2 {
+	for i := 0; i < next && lockOK; i++ {
+		if t := c.threads[i]; t != nil && t.returned && !t.busy && t.releases < 2 {
 			out = append(out, Ev{K: "release", I: i})
 		}
 	}
@@ -112,10 +119,15 @@ func category(e Ev, c *ctl) (string, int) {
 	case "pass":
 		return "pass", 6
 	case "dial":
+		if e.OK && e.Slow {
+			return "dial-ok-slow", 3
+		}
 		if e.OK {
-			return "dial-ok", 5
+			return "dial-ok", 4
 		}
 		return "dial-fail", 3
+	case "closego":
+		return "closego", 3
 	case "failgo":
 		return "failgo", 5
 	case "release":
@@ -318,17 +330,22 @@ func (r *runner) run(j Job) (ops []Ev, obs []Obs, nbs []int) {
 func evTerm(e Ev) string {
 	switch e.K {
 	case "req":
-		return fmt.Sprintf("EReq %s %s %s", vh.Nat(e.I), vh.Nat(e.A), vh.Bool(!e.ND))
+		return fmt.Sprintf("XE (EReq %s %s %s)", vh.Nat(e.I), vh.Nat(e.A), vh.Bool(!e.ND))
 	case "pass":
-		return "EPass " + vh.Nat(e.I)
+		return "XE (EPass " + vh.Nat(e.I) + ")"
 	case "dial":
-		return fmt.Sprintf("EDial %s %s", vh.Nat(e.I), vh.Bool(e.OK))
+		if e.OK && e.Slow {
+			return "XDialSlow " + vh.Nat(e.I)
+		}
+		return fmt.Sprintf("XE (EDial %s %s)", vh.Nat(e.I), vh.Bool(e.OK))
 	case "failgo":
-		return "EFailGo " + vh.Nat(e.I)
+		return "XE (EFailGo " + vh.Nat(e.I) + ")"
 	case "release":
-		return "ERelease " + vh.Nat(e.I)
+		return "XE (ERelease " + vh.Nat(e.I) + ")"
 	case "cancel":
-		return "ECancel " + vh.Nat(e.I)
+		return "XE (ECancel " + vh.Nat(e.I) + ")"
+	case "closego":
+		return "XCloseGo " + vh.Nat(e.I)
 	}
 	panic("evTerm " + e.K)
 }
@@ -359,8 +376,8 @@ func obsTerm(o Obs) string {
 	for i, d := range o.Dials {
 		dials[i] = fmt.Sprintf("(%s, %s)", vh.Nat(d[0]), vh.Nat(d[1]))
 	}
-	return fmt.Sprintf("Obs %s %s %s %s %s %s %d%%N", vh.Bool(o.Ign), vh.List(rets), nats(o.Joined),
-		vh.List(dials), nats(o.Failing), nats(o.Closed), o.Bad)
+	return fmt.Sprintf("XObs (Obs %s %s %s %s %s %s %d%%N) %s %s", vh.Bool(o.Ign), vh.List(rets), nats(o.Joined),
+		vh.List(dials), nats(o.Failing), nats(o.Closed), o.Bad, nats(o.InClose), nats(o.RelDone))
 }
 
 func caseTerm(c Case) string {
@@ -417,11 +434,20 @@ func (e *emitter) add(family string, ops []Ev, obs []Obs) {
 	for i, o := range ops {
 		k := o.K
 		if o.K == "dial" {
-			if o.OK {
+			switch {
+			case o.OK && o.Slow:
+				k = "dial-ok-slow-close"
+			case o.OK:
 				k = "dial-ok"
-			} else {
+			default:
 				k = "dial-fail"
 			}
+		}
+		if len(obs[i].InClose) > 0 {
+			e.meta.Hist("close-parked")
+		}
+		if i > 0 && !obs[i].Ign && lockKind(o.K) && parkedBefore(ops, obs, i) {
+			e.meta.Hist("lock-event-during-parked-close:" + o.K)
 		}
 		if o.K == "req" && o.ND {
 			k = "req-unknown-dialer"
@@ -461,11 +487,25 @@ func (e *emitter) add(family string, ops []Ev, obs []Obs) {
 	}
 }
 
+// parkedBefore reports whether a Close was parked when event i was played.
+func parkedBefore(ops []Ev, obs []Obs, i int) bool {
+	p := false
+	for j := 0; j < i; j++ {
+		if len(obs[j].InClose) > 0 {
+			p = true
+		}
+		if ops[j].K == "closego" && !obs[j].Ign {
+			p = false
+		}
+	}
+	return p
+}
+
 func (e *emitter) flush() {
 	if e.cf.Len() == 0 {
 		return
 	}
-	if err := e.cf.Write(e.dir, e.shard, "Conn.ConnCheck", "list (event * obs)", "check_all"); err != nil {
+	if err := e.cf.Write(e.dir, e.shard, "Conn.ConnCheck", "list (xevent * xobs)", "xcheck_all"); err != nil {
 		vh.Die("write: %v", err)
 	}
 	e.shard++
